@@ -3,6 +3,8 @@
 
 #pragma once
 
+#include <memory>
+
 namespace micm
 {
   /// @brief This is the base class for temporary variables; currently it is empty and will be expanded by a specific solver
@@ -16,5 +18,11 @@ namespace micm
     TemporaryVariables& operator=(const TemporaryVariables& other) = default;
     TemporaryVariables& operator=(TemporaryVariables&& other) = default;
     virtual ~TemporaryVariables() = default;
+
+    /// @brief Copy of this object with its dynamic type (the solvers downcast to their own scratch type)
+    virtual std::unique_ptr<TemporaryVariables> Clone() const
+    {
+      return std::make_unique<TemporaryVariables>(*this);
+    }
   };
 }  // namespace micm
